@@ -34,6 +34,10 @@ func (s *subContext) GetKey(k string) string {
 	return s.parent.GetKey(k)
 }
 
+func (s *subContext) InStaticAnalysis() bool {
+	return InStaticAnalysis(s.parent)
+}
+
 func (s *subContext) Eval(stage KeyBuilderStage, v0, v1 string) string {
 	s.vals[0] = v0
 	s.vals[1] = v1
